@@ -977,20 +977,32 @@ pub fn exhaustive_stage(focus: SF, tier: Tier, _seed: u64) -> crate::infra::Cust
     let progs = Arc::new(progs);
     let next = Arc::new(std::sync::atomic::AtomicUsize::new(0));
     let results: Arc<Mutex<Vec<(String, u64, Vec<u64>, Option<(Violation, Vec<u8>)>, bool)>>> = Arc::new(Mutex::new(Vec::new()));
+    // Forking from a multi-threaded process: a child inherits every lock some *other* thread
+    // holds at that instant, forever.  The standard library takes a process-wide mutex while a
+    // thread starts and while it exits (stack-overflow handler bookkeeping); a child forked in
+    // that window can never start a thread of its own (root cause of F10).  So no fork happens
+    // before every worker thread has started, and no worker exits before all forks are done.
+    let started = Arc::new(std::sync::Barrier::new(n_threads));
+    let done = Arc::new(std::sync::Barrier::new(n_threads));
     let mut hs = Vec::new();
     for _ in 0..n_threads {
         let progs = progs.clone();
         let next = next.clone();
         let results = results.clone();
-        hs.push(std::thread::spawn(move || loop {
-            let i = next.fetch_add(1, std::sync::atomic::Ordering::SeqCst);
-            if i >= progs.len() {
-                break;
+        let (started, done) = (started.clone(), done.clone());
+        hs.push(std::thread::spawn(move || {
+            started.wait();
+            loop {
+                let i = next.fetch_add(1, std::sync::atomic::Ordering::SeqCst);
+                if i >= progs.len() {
+                    break;
+                }
+                let (name, case) = &progs[i];
+                let bound = if name.starts_with("sync") { bound_sync } else { bound_async };
+                let (runs, keys, viol, trunc) = enumerate(case, focus, bound, true, max_runs);
+                results.lock().unwrap().push((name.clone(), runs, keys, viol, trunc));
             }
-            let (name, case) = &progs[i];
-            let bound = if name.starts_with("sync") { bound_sync } else { bound_async };
-            let (runs, keys, viol, trunc) = enumerate(case, focus, bound, true, max_runs);
-            results.lock().unwrap().push((name.clone(), runs, keys, viol, trunc));
+            done.wait();
         }));
     }
     for h in hs {
